@@ -773,7 +773,9 @@ class C17(PropertyCheck):
             # (niter=0 asks for no fit at all: two_level_glm then returns (0, inf) for one column and
             #  fails to reshape its scalar inf for several; only the one-column form is exercised)
             cases.append({"kind": "vbglm", "n": n, "p": pp, "seed": rng.randrange(10 ** 6),
-                          "design": rng.choice(["ones", "group", "group", "group+cov"]) if n >= 4 else "ones",
+                          # "origin" / "group+cov0": the constant is NOT in the column space (residuals do not sum to 0)
+                          "design": (rng.choice(["ones", "group", "group", "group+cov", "origin", "group+cov0"])
+                                     if n >= 4 else rng.choice(["ones", "origin"])),
                           "n1": rng.randrange(1, n),
                           "niter": rng.choice([0, 1, 1, 2, 2, 5, 10] if pp == 1 else [1, 1, 2, 2, 5, 10])})
         for _ in range(n_ax):
@@ -1669,6 +1671,10 @@ class C17(PropertyCheck):
             X = np.ones((n, 1))
         elif c["design"] == "group":
             X = np.vstack((np.ones(n), g)).T.astype(float)
+        elif c["design"] == "origin":          # regression through the origin
+            X = ((np.arange(n) + 1.0) / 2.0).reshape(n, 1)
+        elif c["design"] == "group+cov0":      # one group indicator and a covariate, no intercept
+            X = np.vstack((g, (np.arange(n) + 1.0) / 2.0)).T.astype(float)
         else:
             X = np.vstack((np.ones(n), g, np.arange(n) - (n - 1) / 2.0)).T.astype(float)
         Y = rs.randint(-16, 17, size=(n, p)) / 4.0
